@@ -246,6 +246,9 @@ pub fn gen_codec(r: &mut Rng) -> Vec<Tree> {
         }
         ops.push(l(vec![n(40u8), b(&m)]));
     }
+    for _ in 0..4 {
+        ops.push(l(vec![n(40u8), b(&gen_raw_ack(r))]));
+    }
     ops
 }
 
@@ -261,7 +264,45 @@ struct Side {
     nout: usize,
 }
 
+fn put_varint(v: &mut Vec<u8>, x: u64) {
+    if x < (1 << 6) {
+        v.push(x as u8);
+    } else if x < (1 << 14) {
+        v.extend_from_slice(&((x as u16) | 0x4000).to_be_bytes());
+    } else if x < (1 << 30) {
+        v.extend_from_slice(&((x as u32) | 0x8000_0000).to_be_bytes());
+    } else {
+        v.extend_from_slice(&((x & ((1 << 62) - 1)) | 0xc000_0000_0000_0000).to_be_bytes());
+    }
+}
+
+/// An ack packet written byte by byte: every field sits at or next to the bound the decoder checks it against
+/// (first size against first end; every gap against the previous range start; every size against the range end).
+pub fn gen_raw_ack(r: &mut Rng) -> Vec<u8> {
+    let mut v = vec![4u8];
+    put_varint(&mut v, boundary_u62(r));
+    let end = if r.chance(2, 3) { r.below(200) } else { boundary_u62(r) };
+    let size = *r.pick(&[0u64, 1, end / 2, end.saturating_sub(1), end, end.saturating_add(1)]);
+    put_varint(&mut v, end);
+    put_varint(&mut v, size & ((1 << 62) - 1));
+    let count = *r.pick(&[0u64, 1, 1, 2, 3, 3, 70, 1 << 20]);
+    put_varint(&mut v, count);
+    let mut prev_start = end.saturating_sub(size);
+    for _ in 0..count.min(4) {
+        let gap = *r.pick(&[0u64, 1, prev_start.saturating_sub(3), prev_start.saturating_sub(2), prev_start.saturating_sub(1), prev_start, prev_start.saturating_add(1)]);
+        put_varint(&mut v, gap & ((1 << 62) - 1));
+        let range_end = prev_start.saturating_sub(gap).saturating_sub(2);
+        let rsize = *r.pick(&[0u64, 0, 1, range_end.saturating_sub(1), range_end, range_end.saturating_add(1)]);
+        put_varint(&mut v, rsize & ((1 << 62) - 1));
+        prev_start = range_end.saturating_sub(rsize);
+    }
+    v
+}
+
 fn gen_hostile_raw(r: &mut Rng, dst: &Side) -> Vec<u8> {
+    if r.chance(1, 6) {
+        return gen_raw_ack(r);
+    }
     let chans: Vec<u8> = dst.recv.iter().map(|c| c.id).collect();
     for _ in 0..8 {
         let p = gen_packet(r, &chans, true);
@@ -476,7 +517,24 @@ pub fn gen_server(r: &mut Rng, hostile: bool, steps: usize) -> Vec<Tree> {
                 ops.push(l(vec![n(28u8), n(ids[3]), n(3u8)]));
                 ops.push(op_pair(Ep::Conn(3), Ep::Srv(ids[3])));
             }
-            13 => ops.push(l(vec![n(29u8), n(ids[3]), n(3u8)])),
+            13 => {
+                if r.chance(1, 3) {
+                    ops.push(l(vec![n(29u8), n(ids[3]), n(3u8)]));
+                } else {
+                    // traffic of the local client: messages both ways, then the in-process exchange
+                    let c = r.pick(&server_cfg).clone();
+                    let len = size_class(r).min(c.max);
+                    ops.push(l(vec![n(32u8), n(ids[3]), n(c.id), b(&pl.make(r, len))]));
+                    let c2 = r.pick(&client_cfg).clone();
+                    let len2 = size_class(r).min(c2.max);
+                    // (a local client is built with new_from_server: it sends on the server's channels and receives on the client's)
+                    ops.push(op_send(Ep::Conn(3), c.id, &pl.make(r, len2.min(c.max))));
+                    ops.push(l(vec![n(39u8), n(*r.pick(&[ids[3], ids[3], ids[0]])), n(3u8)]));
+                    ops.push(op_drain(Ep::Conn(3), c2.id));
+                    ops.push(l(vec![n(33u8), n(ids[3]), n(c2.id)]));
+                    ops.push(l(vec![n(42u8)]));
+                }
+            }
             14 => {
                 let side = Side { ep: se, send: server_cfg.clone(), recv: client_cfg.clone(), nout: 0 };
                 let raw = gen_hostile_raw(r, &side);
